@@ -816,6 +816,7 @@ func init() {
 			"plain writes that wait 150 ms for a held writer slot, calls on ended sessions, commit twice, start on an ended or busy session, " +
 			"index operations directly on the open transaction followed by abort; 40% of the histories start with a unique secondary index over a few documents and then mix in " +
 			"multi-updates / replacements / batches (insertMany, bulkWrite) that fail for uniqueness at a later document, inside and outside transactions, followed by commits; " +
+			"9% of the writes are find-and-modify statements whose projection fails only on the returned document (the write itself creates the offending array); " +
 			"monitors on the implementation alone: a failed statement leaves the transaction's view unchanged (C02), every index of the view / the committed catalog is coherent (C15), unique keys (C07); " +
 			"6-15% injected store failures on commits); every step is one case compared with Lean `SSys.step`, followed by dump cases " +
 			"(transaction view = sess.dumpTxn, committed = sess.dump); snapshots (Catalog(), open cursors, unlocked transactions, the " +
